@@ -8,7 +8,7 @@ rnd = sys.argv[3] if len(sys.argv) > 3 else "1"
 for d in sorted(glob.glob(os.path.join(base, "C*/_seeded/change*"))):
     prop = d.split("/")[-3]
     n = int(d[-1]) + offset
-    dst = f"/verif/seeded/{prop}-{n}"
+    dst = os.path.join(os.path.dirname(os.path.dirname(os.path.abspath(__file__))), "seeded", f"{prop}-{n}")
     if os.path.exists(dst) or not os.path.exists(os.path.join(d, "patch.diff")) or not os.path.exists(os.path.join(d, "demo.py")):
         continue
     os.makedirs(dst)
